@@ -19,6 +19,14 @@ func getProfile(name string, seed int64) *Profile {
 		p.Colls = 1
 		p.W = weights(map[string]int{"FindAll": 30, "ForEach": 8, "Derived": 6, "DropCollection": 0, "Delete": 1})
 		p.Invalid = 0.03
+	case "ties": // C08 / C09: many documents, few distinct sort keys, windows cutting tie groups
+		p.Colls = 1
+		p.MaxDocs = 30
+		p.Ops = 30
+		p.SortHeavy = true
+		p.Invalid = 0.02
+		p.Name = "ties"
+		p.W = weights(map[string]int{"Derived": 30, "FindAll": 10, "FindFirst": 6, "Insert": 20, "DropCollection": 0, "Delete": 1, "DeleteById": 2, "CreateIndex": 2})
 	case "derived": // C09
 		p.W = weights(map[string]int{"Derived": 30, "FindAll": 4, "Count": 6, "Exists": 4, "FindFirst": 4, "ForEach": 6, "FindById": 4, "DeleteById": 8})
 		p.ReadAudit = 0.5
